@@ -6,12 +6,12 @@
 // answer stream (the Lean side never prints them, so they show up in the diff).
 //
 // usage: value <seed> <nprograms> <mode> <prog-out> <answers-out> [--replay <prog-file>]
-//   mode: int | str            element type int (trivial) or Str (holds a std::string); other element type long / int.
-//                              The generator stays clear of the input classes of the findings recorded in findings/C0x.json
-//                              (assign-inner-extents, empty-range, reextent-index-bases), which abort the library.
-//         +c06                 operation weights of C06 (reextent / clear / reshape / assign) instead of C04's
-//         +full                more weight on lists / ranges / reextent, and (for seeds divisible by 4) those classes included: these streams
-//                              are clean once the fixes in fixes/ are applied and show the known findings before.
+//   mode: int | str   element type int (trivial) or Str (holds a std::string); other element type long / int.
+//         +c06        operation weights of C06 (reextent / clear / reshape / assign) instead of C04's
+//         +full       also the input classes of the findings recorded in findings/C0x.json (assign-inner-extents, empty-range,
+//                     reextent-index-bases, assign-empty-view: all fixed in /repo by now; before the fixes they aborted the
+//                     library, so the plain streams stay clear of them and a regression there cannot mask everything else),
+//                     and, in half of the programs, more weight on lists / ranges / reextent
 // Every program runs in a forked child, so an assertion failure or crash of the library costs one program, not the stream.
 #include <boost/multi/array.hpp>
 
@@ -1023,7 +1023,7 @@ struct H {
 // ---------------------------------------------------------------------------------------------------- program isolation
 template<class HT> static int child_generated(std::uint64_t seed, long p, bool full, bool c06) {
 	HT h; h.c06 = c06;
-	h.full = full && (seed % 4 == 0);  // one worker stream in four includes the classes of the recorded findings (each hit costs a shrink)
+	h.full = full;
 	Rng rng(seed * 1000003ULL + static_cast<std::uint64_t>(p) + (HT::trivial ? 0ULL : 500009ULL) + (full ? 250007ULL : 0ULL) + (c06 ? 125003ULL : 0ULL));  // streams of different modes differ
 	h.il_focus = full && rng.coin(50);
 	h.run_program(rng);
